@@ -208,8 +208,8 @@ reg('C05', 'exploration',
     'exhaustive enumeration of derived inverse pairs x magnitude grid with perturbation oracle', 'DESIGN.md section 7 C05')
 reg('C18', 'exploration',
     'Exhaustive over a fixed table of 68 textbook definitions in every direction the tree offers (existence probed at compile time), 3 '
-    'numeric types, magnitude grid over 80 binades with all arguments pairwise different, reference in __float128 with the textbook '
-    'constants, tolerance 4 ulp or the image of +-1,2,4 ulp input moves under the exact formula.',
+    'numeric types, magnitude grid over 80 binades with all arguments pairwise different (heat-capacity ratios also next to one, rotation-dominated gradients), reference in __float128 with the textbook '
+    'constants, tolerance 8 ulp of the result; every member function that is a second spelling of a constructor is tied to that constructor.',
     TB + 'The formula table in harness/c18.cpp restates the textbook definitions named in the property.',
     'exhaustive table x magnitude grid against __float128 textbook reference', 'DESIGN.md section 7 C18')
 
